@@ -42,6 +42,8 @@ func main() {
 		err = c15Main(*seed, *n, *out, *repo)
 	case "c15child":
 		err = c15Child(*replay, *out, *n)
+	case "c10":
+		err = c10Main(*seed, *n, *out)
 	case "c13race":
 		err = c13Race(*seed, *n)
 	case "c13":
